@@ -36,3 +36,8 @@ pub fn unflushed<W: Write>(w: W, v: u64) -> std::io::Result<()> {
     bw.write_all(&v.to_ne_bytes())?;
     Ok(())
 }
+
+/// C17.R5: an and-mask built by widening the complement of a narrower value (clears the upper 32 bits as well).
+pub fn narrow_mask(n: usize) -> usize {
+    (n + 63) & !(u64::BITS - 1) as usize
+}
